@@ -581,3 +581,79 @@ Definition parse_alloc_result (bs : bytes) : Result Proof :=
    vector, one error message *)
 Definition alloc_bound (input_len : Z) : Z :=
   25 * input_len + (MAX_PREALLOC + MAX_PREALLOC + 2 * SZ_2VEC + ERR_MSG).
+
+(* ============================================================ bulk reads and the position arithmetic of check_eor *)
+(* SliceReader::check_eor(num_bytes) is `if self.pos + num_bytes > self.source.len() { Err(UnexpectedEOF) }` with an
+   UNCHECKED addition: debug builds panic (attempt to add with overflow), release builds wrap and the subsequent slice
+   index panics.  Codec.v's read_slice compares the length with the bytes that remain (no position); the readers below are
+   the bulk readers with the position made explicit: [total] = source.len(), pos = total - remaining.  read_Proof_chk is
+   read_Proof with every bulk read (read_vec / read_slice with a length taken from the input) replaced by its checked
+   twin; Proofs/UntrustedBulk.v shows that it IS read_Proof on every input shorter than 2^63 bytes, because every such
+   length is first read from a field of at most 4 bytes: the only usize (vint64) length of the format, the one of the GKR
+   proof, is consumed element by element (read_many), never by a bulk read. *)
+Definition check_eor (total n : Z) : Rd unit :=
+  fun bs => let pos := total - len bs in
+            if pos + n >? usize_max then Panic
+            else if pos + n >? total then Err Eof else Ok (tt, bs).
+Definition read_slice_chk (total n : Z) : Rd bytes := _ <- check_eor total n ;; read_slice n.
+Definition read_vec_chk (total n : Z) : Rd bytes := read_slice_chk total n.
+Definition read_blob_chk (total : Z) (k : nat) : Rd bytes := n <- read_uint k ;; read_vec_chk total n.
+
+Definition read_TraceInfo_chk (total : Z) : Rd TraceInfo :=
+  main <- read_u8 ;;
+  if main =? 0 then fail Invalid else
+  aux <- read_u8 ;;
+  if main + aux >? 255 then fail Invalid else
+  rands <- read_u8 ;;
+  if (aux =? 0) && negb (rands =? 0) then fail Invalid else
+  if rands >? 255 then fail Invalid else
+  e <- read_u8 ;;
+  if e <? 3 then fail Invalid else
+  if e >=? 64 then fail Invalid else
+  let length_ := 2 ^ e in
+  n <- read_u16 ;;
+  meta <- (if negb (n =? 0) then read_vec_chk total n else ret []) ;;
+  lift (TraceInfo_new_multi_segment main aux rands length_ meta).
+
+Definition read_Context_chk (total : Z) : Rd Context :=
+  t <- read_TraceInfo_chk total ;;
+  n <- read_u8 ;;
+  if n =? 0 then fail Invalid else
+  m <- read_vec_chk total n ;;
+  o <- read_ProofOptions ;;
+  if ti_length t >? 2 ^ 32 - 1 then fail Invalid else
+  if (ti_length t * po_blowup_factor o <=? usize_max) && (ti_length t * po_blowup_factor o <=? 2 ^ 32 - 1)
+  then ret (mkCtx t m o) else fail Invalid.
+
+Definition read_Queries_chk (total : Z) : Rd Queries := v <- read_blob_chk total 4 ;; p <- read_blob_chk total 4 ;; ret (mkQ p v).
+Definition read_OodFrame_chk (total : Z) : Rd OodFrame :=
+  t <- read_blob_chk total 2 ;; l <- read_blob_chk total 2 ;; e <- read_blob_chk total 2 ;; ret (mkOod t l e).
+Definition read_FriProofLayer_chk (total : Z) : Rd FriProofLayer :=
+  n <- read_u32 ;;
+  if n =? 0 then fail Invalid else
+  v <- read_vec_chk total n ;;
+  p <- read_blob_chk total 4 ;;
+  ret (mkFL v p).
+Definition read_FriProof_chk (total : Z) : Rd FriProof :=
+  n <- read_u8 ;;
+  layers <- read_many (read_FriProofLayer_chk total) n ;;
+  r <- read_blob_chk total 2 ;;
+  np <- read_u8 ;;
+  if np >=? 64 then fail Invalid else
+  ret (mkFri layers r np).
+
+Definition read_Proof_chk (total : Z) : Rd Proof :=
+  c <- read_Context_chk total ;;
+  nuq <- read_u8 ;;
+  com <- read_blob_chk total 2 ;;
+  tq <- read_many (read_Queries_chk total) (ti_num_segments (ctx_trace_info c)) ;;
+  cq <- read_Queries_chk total ;;
+  ood <- read_OodFrame_chk total ;;
+  fri <- read_FriProof_chk total ;;
+  nonce <- read_u64 ;;
+  gkr <- read_option (read_vec_of read_u8) ;;          (* Vec<u8>::read_from: read_usize + read_many: element-wise *)
+  ret (mkProof c nuq com tq cq ood fri nonce gkr).
+
+(* what the GKR component would be with a bulk read of its vint64 length (a realistic "optimisation") *)
+Definition read_gkr_bulk (total : Z) : Rd (option bytes) :=
+  c <- read_bool ;; if c then (n <- read_usize ;; v <- read_vec_chk total n ;; ret (Some v)) else ret None.
